@@ -187,8 +187,9 @@ def runF : FOp → St → St
     let b := s.blk
     { s.setBlk { b with priv := b.priv + 1 } with sync := s.sync && (c == b.priv) }
   | .custom t, s =>
+    -- `custom_stmt_str`: a statement like any other (separator before it, one owed after it), its text closed by a line break
     let b := s.blk
-    if b.sep then ((s.setBlk { b with sep := false }).put ";").put t else s.put t
+    if b.sep then (s.put ";").put (t ++ "\n") else (s.setBlk { b with sep := true }).put (t ++ "\n")
   | .exprStmt es, s => runEs es s.stat
   | .setTop name, s => { s with top := { s.top with decls := s.top.decls ++ [name] } }
   | .setTopInit name es, s =>
